@@ -132,6 +132,10 @@ def gen_patch(ch, d, tags, depth=0, fold=False):
         k = ch.choice(["newsub", "projection2"])
         if k not in d:
             p[k] = {ch.choice(KEYS): ch.choice(SCALARS)}
+            if ch.bool():
+                # a new object that brings a list of objects with a None place-holder of its own: merged like any other
+                p[k][ch.choice(OBJKEYS)] = [None, {ch.choice(KEYS): ch.choice(SCALARS)}] if ch.bool() else [{ch.choice(KEYS): ch.choice(SCALARS)}]
+                tags.add("new_nested_dict_with_list")
             tags.add("new_nested_dict")
     if ch.chance(1, 8):
         k = ch.choice(["features", "joins"])
@@ -208,7 +212,24 @@ def check_update(d1, patch, overwrite, case):
         out.append(Discrepancy(f"update:content:{'ow' if overwrite else 'noow'}:{msg[:20]}", f"at {loc}: expected vs got: {msg} (overwrite={overwrite})", case))
     if refdict.snapshot(patch) != snap2:
         out.append(Discrepancy("update:patch_modified", "update modified its second argument", case))
+    if not out:
+        # d1 and the patch stay separate objects: changing what update built in d1 leaves the patch as it was
+        _scribble(res)
+        if refdict.snapshot(patch) != snap2:
+            out.append(Discrepancy("update:patch_aliased", "after update, changing an object of d1 changes the patch: d1 holds objects (dicts) of d2 by reference", case))
     return out
+
+
+def _scribble(x):
+    """mark every dict (object) reachable in x; plain value lists are left alone - that d1 may hold d2's scalar lists
+    by reference is not something the statement speaks about, merged objects are"""
+    if isinstance(x, dict):
+        for v in list(x.values()):
+            _scribble(v)
+        x["mfv_scribble"] = 1
+    elif isinstance(x, list):
+        for v in x:
+            _scribble(v)
 
 
 def _od(x):
